@@ -490,12 +490,15 @@ def c09(ctx):
 
 
 @prop("C11", "other",
-      "Named structural clauses only; bit-exact equality with the reference algorithms is NOT decided. Decided: every hash kernel is "
-      "pure (no parameter written, no mutable global, no impure call) so the value depends on (bytes, seed) only (pure); one block size "
-      "per function -- len // B, key[: nblocks*B] viewed with B-byte items, tail key[nblocks*B:], residue len & (B-1) -- B = 8 for "
-      "fasthash64, 4 for murmur3 (blocksize); every whole block consumed once in ascending order (blockloop); the tail switch handles "
-      "every residue 1..B-1 and in branch r uses exactly tail[0..r-1], each once, byte i shifted by 8*i (bytes-once); helpers take and "
-      "return the family's unsigned word and the public functions have the published seed/return widths (uwidth).")
+      "Decided up to the trusted transcription of the published algorithms into the term language: for each public hash and each of the "
+      "2B cases (len mod B, len >= B) -- an exhaustive partition of the inputs, B = 8 for fasthash64, 4 for murmur3 -- the kernel is "
+      "abstractly interpreted over uninterpreted terms (helpers inlined through their typed signatures = truncation nodes, the block "
+      "loop summarised as a fold of its body, loops bounded by the residue unrolled, data-dependent zero tests compared under their "
+      "equation) and the normal form of the result (polynomial mod 2^W, AC xor/and/or, byte placement) equals the normal form of "
+      "FastHash64 / MurmurHash3_x86_32 written in the same language; fasthash32 == uint32(h - (h >> 32)) of fasthash64 (dfg). Also: every "
+      "hash kernel is pure -- no parameter written, no mutable global, no impure call (pure); helpers take and return the family's "
+      "unsigned word and the public functions have the published seed/return widths (uwidth). Where dfg cannot compute a term the "
+      "structural clauses blocksize / blockloop / bytes-once are consulted instead and the run is undecided.")
 def c11(ctx):
     RM.rule_pure(ctx)
     RM.rule_uwidth(ctx)
